@@ -105,7 +105,7 @@ def run_L1(h, case):
     pts = tagged_points(h, n)
     st = Stubs(h, n)
     sig = None
-    with patched(h, st):
+    with patched(h, st, requested=case.get('distance', 'shortest')):
         dist = getattr(rdp.Distance, case.get('distance', 'shortest'))
         if fn == 'rdp':
             t = h.real('t')
@@ -204,12 +204,25 @@ def run_L2(h, case):
         pts = np.array([[0.0, 0.0], [v[0] / 4, v[1] / 4], [v[0], v[1]]])
     else:
         pts = np.array([[v[0], v[2]], [v[0] + v[1] / 2, v[2] / 2], [v[0] + v[1], 0.0]])
+        # and a non-collinear curve that ends with exactly the lemma's pair (a two-point segment whose fitted end value is not 0)
+        extra = np.array([[v[0] - v[1], 2 * v[2] + 5.0], [v[0], v[2]], [v[0] + v[1], 0.0]])
     ok = True
     for call in (lambda: rdp.rdp(pts), lambda: rdp.rdp_fixed(pts, 3), lambda: rdp.mp_grdp(pts, 1e-6, 3), lambda: rdp.grdp(pts),
                  lambda: rdp.rdp(pts, 0.01, rdp.Distance.perpendicular)):
-        red, rem = call()
-        good, why = well_formed([int(x) for x in red], [[int(a), int(b)] for a, b in rem], 3)
+        try:
+            red, rem = call()
+            good, why = well_formed([int(x) for x in red], [[int(a), int(b)] for a, b in rem], 3)
+        except Exception:
+            good = False          # a simplifier that raises does not return a well-formed reduction
         ok = ok and good
+    if case['fn'] == 'fp_endpoint_fit':
+        for call in (lambda: rdp.rdp(extra), lambda: rdp.rdp(extra, 0.01, rdp.Distance.shortest, h.L.metrics.Metrics.rpd), lambda: rdp.grdp(extra), lambda: rdp.rdp_fixed(extra, 3)):
+            try:
+                red, rem = call()
+                good, why = well_formed([int(x) for x in red], [[int(a), int(b)] for a, b in rem], 3)
+            except Exception:
+                good = False
+            ok = ok and good
     h.prove(ok, label)
     return None
 
